@@ -186,8 +186,22 @@ class State:
                 return False
         return True
 
+    def tightened(self):
+        """constraints plus, for every disequality l != 0 whose sign is known,
+        the integer tightening l >= 1 / l <= -1"""
+        extra = []
+        for l in self.ne:
+            if unsat(self.cons + [("le", ladd(l, lconst(1)))]):          # l <= -1 impossible: l >= 0
+                extra.append(("le", ladd(lscale(l, -1), lconst(1))))      # so l >= 1
+            elif unsat(self.cons + [("le", ladd(lscale(l, -1), lconst(1)))]):  # l >= 1 impossible
+                extra.append(("le", ladd(l, lconst(1))))
+        return self.cons + extra
+
     def entails_le(self, l):     # does the state entail l <= 0 (integers)?
-        return unsat(self.cons + [("le", ladd(lscale(l, -1), lconst(1)))])
+        goal = [("le", ladd(lscale(l, -1), lconst(1)))]
+        if unsat(self.cons + goal):
+            return True
+        return bool(self.ne) and unsat(self.tightened() + goal)
 
     def entails_eq(self, l):
         return self.entails_le(l) and self.entails_le(lscale(l, -1))
@@ -318,9 +332,9 @@ class Analysis:
             if e.get("pd"):
                 if k == "var":
                     key = "%s:%s" % (f.name, e["n"])
-                    if key in st.cells:
-                        return [(st.cells[key], st)]
-                    return [(lvar("ptr:%s" % key), st)]
+                    if key not in st.cells:
+                        st.cells[key] = self.fresh(st, "ptr:%s" % key, False)
+                    return [(st.cells[key], st)]
                 key = self.cellkey(f, e, st)
                 if key is None:
                     return [(lvar("ptr:" + ir.render(e)), st)]
@@ -419,6 +433,11 @@ class Analysis:
                     else:
                         s.ptr.pop((f.name, lvs["id"]), None)
                     s.cells["%s:%s" % (f.name, lvs["n"])] = val
+                elif op in ("+=", "-=", "++", "--"):
+                    curv = self.eval(f, lvs, s)[0][0]
+                    val = ladd(curv, val, -1 if op == "-=" else 1)
+                    s.cells["%s:%s" % (f.name, lvs["n"])] = val
+                    s.ptr.pop((f.name, lvs["id"]), None)
                 out.append((val, s))
                 continue
             key = self.cellkey(f, lv, s)
